@@ -287,8 +287,12 @@ def CSt.step (s : CSt) (opLine outLine : String) : CSt :=
     { s with run := { r with sets := r.sets ++ [{ id := t.hexTok 2, data := t.hexTok 3, late := s.late, ret0 := outLine.trimAscii.toString == "ret=0 err=0",
                                                     refused := (o.field "ret").isSome && ret != 0 }] } }
   | "w" =>
-    { s with late := true, run := { r with frames := (t.str 4).toNat?.getD 0, items := (t.items 5 0 4).toList,
-                                           wret := some (retOf o, (o.field "err").map intOf |>.getD 0) } }
+    -- several audio write calls add up (vlib/lateset.py: more audio after a refused late set); vlib/absmeta.py hands every
+    -- write call over as 16-bit items (`canon_write`), whatever entry point the script used
+    let (pr, pe) := r.wret.getD (0, 0)
+    let e := (o.field "err").map intOf |>.getD 0
+    { s with late := true, run := { r with frames := r.frames + (t.str 4).toNat?.getD 0, items := r.items ++ (t.items 5 0 4).toList,
+                                           wret := some (pr + retOf o, if pe != 0 then pe else e) } }
   | "close" =>
     let c := retOf o
     { s with run := { r with close := match r.close with | some old => some (if old != 0 then old else c) | none => some c } }
